@@ -17,17 +17,18 @@
 // snapshot root, and (locks) a context equal to NewEpochsContext of it.
 //
 // Sensitivity (tools/trymut.py C15 <file> <old> <new>; every one CAUGHT in the quick tier, seed 1):
-//   M1 eth2/beacon/altair/state.go     `_statePreviousJustifiedCheckpoint` / `_stateCurrentJustifiedCheckpoint` swapped
-//      -> altair.state.{Previous,Current}JustifiedCheckpoint/wrong-result, Set…/other-field-changed
-//   M2 eth2/beacon/phase0/validator.go ExitEpoch() reads `_validatorWithdrawableEpoch` -> Validator.ExitEpoch/wrong-result
-//   M3 eth2/beacon/phase0/history.go   SetRoot without `% v.VectorLength`               -> BatchRoots.SetRoot/unexpected-error
-//   M4 eth2/beacon/capella/state.go    CopyState returns the same view (`return state, nil`)
-//      -> copies/write-to-copy-visible-in-original, copies/write-to-original-visible-in-copy, capella.state.CopyState/copy-aliases-original
-//   M5 eth2/beacon/phase0/balances.go  SetBalance writes index+1                         -> Balances.SetBalance/other-field-changed
-//   M6 eth2/beacon/deneb/state.go      SetSlot also overwrites genesis_time              -> deneb.state.SetSlot/other-field-changed
-//   M7 eth2/beacon/phase0/randao.go    GetRandomMix reads (epoch+1) % length             -> RandaoMixes.GetRandomMix/wrong-result
-//   M8 eth2/beacon/electra/state.go    SetEarliestExitEpoch writes `_earliestConsolidationEpoch` -> electra.state.SetEarliestExitEpoch/not-written
-//   M9 eth2/beacon/common/header.go    SetStateRoot writes position 2 (parent_root)      -> Header.SetStateRoot/other-field-changed
+//
+//	M1 eth2/beacon/altair/state.go     `_statePreviousJustifiedCheckpoint` / `_stateCurrentJustifiedCheckpoint` swapped
+//	   -> altair.state.{Previous,Current}JustifiedCheckpoint/wrong-result, Set…/other-field-changed
+//	M2 eth2/beacon/phase0/validator.go ExitEpoch() reads `_validatorWithdrawableEpoch` -> Validator.ExitEpoch/wrong-result
+//	M3 eth2/beacon/phase0/history.go   SetRoot without `% v.VectorLength`               -> BatchRoots.SetRoot/unexpected-error
+//	M4 eth2/beacon/capella/state.go    CopyState returns the same view (`return state, nil`)
+//	   -> copies/write-to-copy-visible-in-original, copies/write-to-original-visible-in-copy, capella.state.CopyState/copy-aliases-original
+//	M5 eth2/beacon/phase0/balances.go  SetBalance writes index+1                         -> Balances.SetBalance/other-field-changed
+//	M6 eth2/beacon/deneb/state.go      SetSlot also overwrites genesis_time              -> deneb.state.SetSlot/other-field-changed
+//	M7 eth2/beacon/phase0/randao.go    GetRandomMix reads (epoch+1) % length             -> RandaoMixes.GetRandomMix/wrong-result
+//	M8 eth2/beacon/electra/state.go    SetEarliestExitEpoch writes `_earliestConsolidationEpoch` -> electra.state.SetEarliestExitEpoch/not-written
+//	M9 eth2/beacon/common/header.go    SetStateRoot writes position 2 (parent_root)      -> Header.SetStateRoot/other-field-changed
 //
 // Findings (all fixed in /repo, replays in /verif/replays/regress/C15-F0*): F01 CheckpointView.Root read
 // field 0; F02 SetBalances([]) left a list view that panics when hashed; F03 AddValidator (altair+)
@@ -132,6 +133,8 @@ func run(r *report.Run, c *Case) (f *report.Failure) {
 				return runCopies(r, c)
 			case "sim":
 				return runSim(r, c)
+			case "freeview":
+				return runFreeView(r, c)
 			}
 			return report.Failf("harness", "unknown case kind %q", c.Kind)
 		})
@@ -807,6 +810,7 @@ func TestCheck(t *testing.T) {
 			}
 		}
 	}
+	r.Mandatory("freeview:Withdrawal", "freeview:BLSToExecutionChange", "freeview:SignedBLSToExecutionChange", "freeview:HistoricalBatch")
 	r.Mandatory("copies:two-mutations-on-each-side", "copies:sim", "sim:block-while-copies-held", "sim:skip-while-copies-held", "sim:accessor-write-on-copy-of-chain-state",
 		"error-path:oob-error", "error-path:at-limit-error")
 	r.S.Extra["table_rows_per_fork"] = perFork
@@ -867,6 +871,10 @@ func TestCheck(t *testing.T) {
 		}
 	}
 	if failures == 0 {
+		r.Search(t, "freeviews", 8, r.N(600, 12000), func(rt *rapid.T) (any, *report.Failure) {
+			c := genFreeView(rt)
+			return c, run(r, c)
+		})
 		r.Search(t, "copies/sim", 7, r.N(256, 2000), func(rt *rapid.T) (any, *report.Failure) {
 			c := genSimCase(rt)
 			return c, run(r, c)
